@@ -58,6 +58,7 @@ MODULES = [
     ("streamer/source.py", "source"),
     ("extra/rtlreader.py", "rtlreader"),
     ("streamer/decode.py", "decode"),
+    ("decoder/__init__.py", "decoder"),
 ]
 
 # names by which one module refers to another -> our namespace
@@ -330,6 +331,15 @@ class Translator:
             if "py_common" not in self.mods or func.attr not in self.mods["py_common"].funcs:
                 raise Unsupported("call to %s" % ast.unparse(func))
             tgt_mc, tgt = self.mods["py_common"], self.mods["py_common"].funcs[func.attr]
+        elif (isinstance(func, ast.Attribute) and isinstance(func.value, ast.Name)
+              and mc.imports.get(func.value.id, (None, None))[0] == "commb"):
+            tgt_mc = tgt = None
+            for ns in [n for n in self.mods if n.startswith("bds") and n != "bds"]:
+                if func.attr in self.mods[ns].funcs:
+                    tgt_mc, tgt = self.mods[ns], self.mods[ns].funcs[func.attr]
+                    break
+            if tgt is None:
+                raise Unsupported("call to commb.%s" % func.attr)
         elif isinstance(func, ast.Attribute) and isinstance(func.value, ast.Name):
             modname = func.value.id
             ns = mc.imports.get(modname, (MODULE_ALIASES.get(modname), None))[0] if modname in mc.imports else None
@@ -337,6 +347,11 @@ class Translator:
                 raise Unsupported("call to %s.%s" % (modname, func.attr))
             if (ns, func.attr) in EXTERNALS:
                 return EXTERNALS[(ns, func.attr)][0], EXTERNALS[(ns, func.attr)][3], EXTERNALS[(ns, func.attr)][2], None
+            if ns in self.mods and func.attr not in self.mods[ns].funcs:
+                # a name the module re-exports (`from .bds.bds08 import callsign` in adsb.py)
+                imp = self.mods[ns].imports.get(func.attr)
+                if imp and imp[1] and imp[0] in self.mods and imp[1] in self.mods[imp[0]].funcs:
+                    ns, func = imp[0], ast.Attribute(value=func.value, attr=imp[1], ctx=ast.Load())
             if ns not in self.mods or func.attr not in self.mods[ns].funcs:
                 raise Unsupported("call to %s.%s" % (modname, func.attr))
             tgt_mc, tgt = self.mods[ns], self.mods[ns].funcs[func.attr]
@@ -543,6 +558,15 @@ class FnTranslator:
             c = s.value
             if isinstance(c, ast.Call) and isinstance(c.func, ast.Name) and c.func.id == "print":
                 return []  # console output is not part of any property
+            if isinstance(c, ast.Call) and isinstance(c.func, ast.Name) and c.func.id in getattr(self, "printers", set()):
+                # the arguments are evaluated (a look-up among them may raise), the output itself is not modelled
+                out = []
+                for a in list(c.args) + [k.value for k in c.keywords]:
+                    term, pure = self.res(a)
+                    if not pure:
+                        self.tmp += 1
+                        out.append(pad + "let _p__%d ← %s" % (self.tmp, term))
+                return out
             mcall = self.method_call(c)
             if mcall is not None:
                 lines, _value = mcall(ind)
@@ -569,6 +593,33 @@ class FnTranslator:
             raise Unsupported("expression statement")
         if isinstance(s, ast.Pass):
             return []
+        if isinstance(s, ast.ImportFrom):
+            # `from .. import common, adsb, commb, bds` inside a function: aliases for this module's resolver
+            for a in s.names:
+                local = a.asname or a.name
+                if a.name in MODULE_ALIASES:
+                    self.mc.imports.setdefault(local, (MODULE_ALIASES[a.name], None))
+                elif a.name == "commb":
+                    self.mc.imports.setdefault(local, ("commb", None))
+                else:
+                    raise Unsupported("local import of " + a.name)
+            return []
+        if isinstance(s, ast.FunctionDef):
+            # a local helper that only prints (tell's _print): calling it evaluates the arguments and nothing else
+            def only_prints(body):
+                for b in body:
+                    if isinstance(b, ast.Expr) and isinstance(b.value, ast.Call) and isinstance(b.value.func, ast.Name) and b.value.func.id == "print":
+                        continue
+                    if isinstance(b, ast.If) and only_prints(b.body) and only_prints(b.orelse):
+                        continue
+                    if isinstance(b, ast.Expr) and isinstance(b.value, ast.Constant):
+                        continue
+                    return False
+                return True
+            if only_prints(s.body):
+                self.printers = getattr(self, "printers", set()) | {s.name}
+                return []
+            raise Unsupported("nested function " + s.name)
         if isinstance(s, ast.AnnAssign):
             if s.value is None:
                 return []
@@ -968,6 +1019,14 @@ class FnTranslator:
         mo = re.fullmatch(r"%0(\d+)X", fmt)
         if mo:
             return "pyFmtHexU %s %s" % (mo.group(1), self.val(arg))
+        if fmt.count("%") == fmt.count("%s") and fmt.count("%s") >= 1:
+            # only %s conversions: the pieces between them and str() of each argument
+            pieces = fmt.split("%s")
+            args = arg.elts if isinstance(arg, ast.Tuple) else [arg]
+            if len(args) != len(pieces) - 1:
+                raise Unsupported("format arity")
+            return "pyFormatS (Val.tuple [%s]) (Val.tuple [%s])" % (
+                ", ".join(lean_str(x) if x else "(Val.str [])" for x in pieces), ", ".join(self.val(a) for a in args))
         raise Unsupported("format string %r" % fmt)
 
     def call(self, e):
